@@ -117,7 +117,7 @@ theorem nfInv_setBefore {e : Expr} (h : e.nfInv) {b : List Trivia} (hb : Alt b) 
   | binding n v g b' a => exact ⟨h.1, h.2.1, h.2.2.1, hb, h.2.2.2.2⟩
   | paren v lg tg lb tb b' a => exact ⟨h.1, h.2.1, h.2.2.1, hb, h.2.2.2.2⟩
   | app n x g fa b' a => exact ⟨h.1, h.2.1, h.2.2.1, h.2.2.2.1, hb, h.2.2.2.2.2⟩
-  | wth => exact h.elim
+  | wth env bd c g s b' a => obtain ⟨h1, h2, h3, h4, _, h6⟩ := h; exact ⟨h1, h2, h3, h4, hb, h6⟩
   | asrt => exact h.elim
   | sel e ats g ab b' a => obtain ⟨h1, h2, h3, _, h5⟩ := h; exact ⟨h1, h2, h3, hb, h5⟩
   | selOr e ats g ab d dg db b' a => obtain ⟨h1, h2, h3, h4, h5, h6, _, h8⟩ := h; exact ⟨h1, h2, h3, h4, h5, h6, hb, h8⟩
@@ -138,7 +138,7 @@ theorem nfInv_addAfter {e : Expr} (h : e.nfInv) (hc : closedT (e.effAfter false)
     exact alt_append_closed h.2.2.2.2.1 hc hts
   | paren v lg tg lb tb b a => exact ⟨h.1, h.2.1, h.2.2.1, h.2.2.2.1, alt_append_closed h.2.2.2.2 hc hts⟩
   | app n x g fa b a => exact ⟨h.1, h.2.1, h.2.2.1, h.2.2.2.1, h.2.2.2.2.1, alt_append_closed h.2.2.2.2.2 hc hts⟩
-  | wth => exact h.elim
+  | wth env bd c g s b a => obtain ⟨h1, h2, h3, h4, h5, h6⟩ := h; exact ⟨h1, h2, h3, h4, h5, alt_append_closed h6 hc hts⟩
   | asrt => exact h.elim
   | sel e ats g ab b a => obtain ⟨h1, h2, h3, h4, h5⟩ := h; exact ⟨h1, h2, h3, h4, alt_append_closed h5 hc hts⟩
   | selOr e ats g ab d dg db b a =>
@@ -582,6 +582,16 @@ theorem alt_appBeforeArg (sp : AppSplit) (g : Text) : Alt (appBeforeArg sp g) :=
     · exact alt_append_single h.1 _ (Or.inl h.2)
     · simpa using h.1
 
+/-- `WithStatement.from_cst` on a `with` without comments -/
+theorem withFromCst_shape (he be : Expr) (g1 g2 g3 : Text) :
+    withFromCst he be [] g1 [] g2 [] g3 =
+      .wth he (if (appendGapTrivia [] (g2 ++ ';' :: g3)).isEmpty then be
+        else be.setBefore (appendGapTrivia [] (g2 ++ ';' :: g3) ++ be.before)) [] g1 [] [] [] := by
+  unfold withFromCst
+  simp only [collectTrivia, collectGo, semiSeq, List.isEmpty_nil, Bool.not_true, Bool.false_and, Bool.false_eq_true,
+    if_false, if_true]
+  rcases appendGapTrivia_cases (g2 ++ ';' :: g3) with e | e | e <;> rw [e] <;> simp [splitInline]
+
 /-- `FunctionCall.from_cst`: the layout invariants -/
 theorem app_nf {fe ae : Expr} (cs : GC) (g : Text) (hf : fe.nfInv) (hfb : fe.before = []) (ha : ae.nfInv)
     (hab : ae.before = []) : (appFromCst fe ae cs g).nfInv := by
@@ -599,7 +609,32 @@ theorem app_nf {fe ae : Expr} (cs : GC) (g : Text) (hf : fe.nfInv) (hfb : fe.bef
 mutual
 theorem cst_nf : (c : Cst) → c.wf = true → c.basic = true → ∀ (e : Expr), c.parse = .ok e →
     e.nfInv ∧ e.before = [] ∧ e.after = [] ∧ e.notBinding = true
-  | .kw .., _, hbs, _, _ => by simp [Cst.basic] at hbs
+  | .kw w c1 g1 h c2 g2 c3 g3 b, hwf, hbs, ex, hp => by
+    simp only [Cst.wf, Bool.and_eq_true, List.isEmpty_iff] at hwf
+    obtain ⟨⟨⟨⟨⟨⟨⟨hc1, _⟩, hhw⟩, hc2⟩, _⟩, hc3⟩, _⟩, hbw⟩ := hwf
+    subst hc1; subst hc2; subst hc3
+    simp only [Cst.basic, Bool.and_eq_true] at hbs
+    obtain ⟨⟨hw, hhb⟩, hbb⟩ := hbs
+    subst hw
+    simp only [Cst.parse] at hp
+    cases hph : h.parse with
+    | error err => rw [hph] at hp; cases hp
+    | ok he =>
+      rw [hph] at hp
+      cases hpb : b.parse with
+      | error err => rw [hpb] at hp; cases hp
+      | ok be =>
+        rw [hpb] at hp
+        simp only [if_true] at hp
+        injection hp with hp; subst hp
+        obtain ⟨hhn, hhbf, _, _⟩ := cst_nf h hhw hhb he hph
+        obtain ⟨hbn, hbbf, _, _⟩ := cst_nf b hbw hbb be hpb
+        rw [withFromCst_shape]
+        refine ⟨⟨hhn, hhbf, rfl, ?_, trivial, trivial⟩, rfl, rfl, rfl⟩
+        rcases appendGapTrivia_cases (g2 ++ ';' :: g3) with e | e | e <;> rw [e]
+        · exact hbn
+        · exact nfInv_setBefore hbn (by rw [hbbf]; trivial)
+        · exact nfInv_setBefore hbn (by rw [hbbf]; trivial)
   | .sel e c1 g1 gd attrs, hwf, hbs, ex, hp => by
     simp only [Cst.wf, Bool.and_eq_true, List.isEmpty_iff] at hwf
     obtain ⟨⟨⟨⟨⟨hew, hc1⟩, _⟩, _⟩, _⟩, _⟩ := hwf
@@ -1027,7 +1062,9 @@ theorem inlineClean_of_B : (e : Expr) → e.inlineCleanB = true → e.inlineClea
     rcases h.1.1 with h1 | h1
     · rw [hon] at h1; cases h1
     · exact h1
-  | .wth .., h => by simp [Expr.inlineCleanB] at h
+  | .wth env body _ _ _ _ _, h => by
+    simp only [Expr.inlineCleanB, Bool.and_eq_true] at h
+    exact ⟨inlineClean_of_B env h.1, inlineClean_of_B body h.2⟩
   | .asrt .., h => by simp [Expr.inlineCleanB] at h
   | .sel e _ _ _ _ _, h => inlineClean_of_B e h
   | .selOr e _ _ _ d _ _ _ _, h => by
